@@ -91,6 +91,9 @@ func genC15(g *Gen) {
 			for k := range l {
 				if r.Bool() {
 					l[k] = map[string]interface{}{"x": randScalar(r), "y": randScalar(r)}
+					if r.Bool() {
+						l[k].(map[string]interface{})["z"] = map[string]interface{}{"w": randScalar(r), "v": map[string]interface{}{"u": randScalar(r)}}
+					}
 				} else {
 					l[k] = randScalar(r)
 				}
